@@ -20,8 +20,30 @@ def run_oneshot(rep, pid, name, subcmd, scenarios, templates, seed, module, npro
         sp = os.path.join(wd, "scn%d.jsonl" % i)
         tp = os.path.join(wd, "out%d.ndjson" % i)
         write_jsonl(sp, part)
-        run_driver([subcmd] + (pre_args or [templates]) + [sp, tp], env={"VERIF_SEED": seed})
-        evs = read_jsonl(tp)
+        try:
+            run_driver([subcmd] + (pre_args or [templates]) + [sp, tp], env={"VERIF_SEED": seed})
+            evs = read_jsonl(tp)
+        except ToolError as first:
+            # the driver process died (an abort, e.g. a panic that crossed the C boundary, or a failed allocation): run the
+            # scenarios of this part one per process; a scenario that kills its process is recorded as data, not as a tool error
+            evs = []
+            for k, scn in enumerate(part):
+                s1, t1 = os.path.join(wd, "one%d_%d.jsonl" % (i, k)), os.path.join(wd, "one%d_%d.ndjson" % (i, k))
+                write_jsonl(s1, [scn])
+                try:
+                    run_driver([subcmd] + (pre_args or [templates]) + [s1, t1], env={"VERIF_SEED": seed})
+                    evs.extend(read_jsonl(t1))
+                except ToolError as e:
+                    evs.append({"ev": "crash", "id": scn.get("id", ""), "op": scn.get("op", ""), "prop": pid, "what": str(e)[-300:]})
+                for f in (s1, t1):
+                    if os.path.exists(f):
+                        os.unlink(f)
+            if not any(e.get("ev") == "crash" for e in evs):
+                # every scenario passes on its own, the sequence in one process does not: a failure that depends on what
+                # the process did before (state kept between calls)
+                evs.append({"ev": "crash", "id": "%s..%s (only as a sequence in one process)" % (part[0].get("id", ""), part[-1].get("id", "")),
+                            "op": "sequence", "prop": pid, "what": str(first)[-300:]})
+            write_jsonl(tp, evs)
         v = validate_trace(pid, "%s-%d" % (name, i), module, tp, len(evs))
         return i, part, tp, evs, v
 
